@@ -122,15 +122,19 @@ def _krr(case, kernel, alpha):
 # case["present"] = {"train": kind, "new": kind}; absent = float64 C-ordered ndarray everywhere.
 # The model, the oracle's reference routes (precomputed kernel, PCovR, explicit normaliser) and
 # the numpy mirror always work on the float64 VALUES, so a presentation-dependent answer shows.
-TRAIN_PRESENT = ["int64", "int32", "int64", "list", "fortran", "strided", "f32"]
+TRAIN_PRESENT = ["int64", "int32", "int8", "uint8", "int16", "list", "fortran", "strided", "f32"]
 NEW_PRESENT = ["f64", "f64", "list", "fortran", "strided", "f32new"]
+INT_KINDS = ("int64", "int32", "int8", "uint8", "int16")
+# narrow containers: (amplitude for linear / cosine kernels - inner products of d >= 2 features exceed
+# the container's range -, amplitude for the other kernels, offset for the unsigned type)
+NARROW = {"int8": (12, 3, 0), "uint8": (7, 3, 8), "int16": (150, 3, 0)}
 
 
 def _present(A, kind):
     A = np.asarray(A, float)
     if kind in (None, "f64"):
         return A
-    if kind in ("int64", "int32"):
+    if kind in INT_KINDS:
         B = A.astype(kind)
         assert np.array_equal(B.astype(float), A), "integer presentation of non-integer values"
         return B
@@ -151,28 +155,74 @@ def _present(A, kind):
 
 def gen_present_case(rng, quick):
     """a case whose training X and / or new samples are NOT float64 C-ordered ndarrays"""
+    for _ in range(50):
+        c = _gen_present_case(rng, quick)
+        # quantisation must not collapse the training set (identical samples: centred kernel = 0)
+        if len({tuple(r) for r in c["X"]}) >= min(c["n"], 3):
+            return c
+    return c
+
+
+def _gen_present_case(rng, quick):
     c = gen_case(rng, quick)
     tp = rng.choice(TRAIN_PRESENT)
     if c["kernel"] == "precomputed" and tp in ("int64", "int32", "f32"):
         tp = rng.choice(["list", "fortran", "strided"])      # a real-valued kernel matrix is passed
+    if c["kernel"] == "precomputed" and tp in NARROW:
+        tp = rng.choice(["list", "fortran", "strided"])
     X = np.array(c["X"], float)
+
+    def narrow(A, kind):
+        big, small, off = NARROW[kind]
+        amp = big if c["base_kernel"] in ("linear", "cosine") else (2 if c["base_kernel"] == "sigmoid" else small)
+        B = np.clip(np.round(np.asarray(A, float) * (amp / 2.5 if amp == big else 2.0)), -amp, amp)
+        B[~B.any(axis=1), 0] = 1.0       # no all-zero sample: tr K_VV = 0 makes the documented loss 0/0
+        return B + (off if amp == big else (amp if off else 0))
+
     if tp in ("int64", "int32"):
         # integer-valued training data (counts, grid indices, one-hot codes ...); new samples stay real
         X = np.round(2.0 * X)
         if c["base_kernel"] == "sigmoid":
             X = np.clip(X, -2, 2)
         c["X"] = X.tolist()
+    elif tp in NARROW:
+        # 8 / 16 bit containers (images, quantised descriptors): for the linear and cosine kernels the
+        # values are large enough for inner products to leave the container's range
+        c["X"] = narrow(X, tp).tolist()
     elif tp == "f32":
         c["X"] = X.astype(np.float32).astype(float).tolist()
     nw = rng.choice(NEW_PRESENT)
+    if tp in NARROW and rng.random() < 0.6:
+        nw = tp                                  # new samples in the same narrow container
+        for nd in c["news"]:
+            if nd["Xv"] is not None:
+                nd["Xv"] = narrow(nd["Xv"], tp).tolist()
     if c["kernel"] == "precomputed" and nw == "f32new":
         nw = "list"
     if nw == "f32new":
         for nd in c["news"]:
             if nd["Xv"] is not None:
                 nd["Xv"] = np.array(nd["Xv"], np.float32).astype(float).tolist()
-    c["present"] = dict(train=tp, new=nw)
+    # constructor arguments as numpy scalars (what a parameter grid built with numpy hands over)
+    c["present"] = dict(train=tp, new=nw, params=rng.random() < 0.4)
     return c
+
+
+def _present_params(case, kw):
+    """n_components as np.int64, mixing as np.float32 (when representable) / int (0, 1) / np.float64,
+    center as np.bool_, gamma / degree / coef0 as numpy scalars: same values, other types"""
+    out = dict(kw)
+    out["n_components"] = np.int64(kw["n_components"])
+    m = kw["mixing"]
+    out["mixing"] = int(m) if m in (0.0, 1.0) and case["n"] % 2 else (
+        np.float32(m) if float(np.float32(m)) == m else np.float64(m))
+    out["center"] = np.bool_(kw["center"])
+    if kw.get("gamma") is not None:
+        out["gamma"] = np.float64(kw["gamma"])
+    out["degree"] = np.int64(kw["degree"])
+    c0 = kw["coef0"]
+    out["coef0"] = np.int64(c0) if float(c0).is_integer() else np.float64(c0)
+    return out
 
 
 def build(case, kernel=None, center=None, Xfit=None, regr_kernel_data=None):
@@ -184,6 +234,7 @@ def build(case, kernel=None, center=None, Xfit=None, regr_kernel_data=None):
     X = np.array(case["X"], float)
     Y = np.array(case["Y"], float)
     Yfit = Y[:, 0] if case["y1d"] else Y
+    own_route = Xfit is None and kernel == case["kernel"]
     if Xfit is None:
         Xfit = kern(case, X) if kernel == "precomputed" else X
         if kernel == case["kernel"] and case.get("present"):
@@ -211,8 +262,10 @@ def build(case, kernel=None, center=None, Xfit=None, regr_kernel_data=None):
             Yfit = Kc @ Wd                  # "the regressed form of the targets"
             if reg == "pre_W":
                 W = Wd
-    est = KernelPCovR(mixing=case["mixing"], n_components=case["k"], regressor=regressor,
-                      kernel=kernel, center=center, **case["params"])
+    kw = dict(mixing=case["mixing"], n_components=case["k"], center=center, **case["params"])
+    if own_route and (case.get("present") or {}).get("params"):
+        kw = _present_params(case, kw)
+    est = KernelPCovR(regressor=regressor, kernel=kernel, **kw)
     return est, Xfit, Yfit, W
 
 
@@ -331,6 +384,13 @@ def mirror(case, rec):
     V = evecs[:, order][:, :k]
     S = lam[:k].copy()
     info = dict(skip=None)
+    if case["regressor"] in ("none", "krr_unfitted"):
+        # the hint W is checked against (K + alpha I) W = Y to 2^-30 max(1, |Y|) inside Coq; with large
+        # kernel entries (8 / 16 bit integer data) and small alpha the rounding of that residual alone
+        # (~ n eps |K + alpha I| |W|) can exceed it: not comparable
+        Ka = K + rec.get("alpha_used", 0.0) * np.eye(n)
+        if 4 * n * 1.2e-16 * np.max(np.abs(Ka)) * np.max(np.abs(W)) > 0.25 * 2.0 ** -30 * max(1.0, np.max(np.abs(Y))):
+            info["skip"] = "krr_scale"
     if case["regressor"] == "pre_raw_noW":
         # W = lstsq(K, Yhat, tol) of a Yhat outside the range of K amplifies the components along
         # small singular directions by 1/sigma: the hint is only comparable when no singular value
